@@ -16,12 +16,13 @@ static void record_call(void (*f)(void *), void *p);
 #define MAXTH 6
 #define NO 16
 static unsigned long ran[NO]; static int owner[NO]; static unsigned long queued[MAXTH], done_[MAXTH];
-static char *prog[MAXTH]; static int nprog; static char tn[MAXTH+4][8];
+static char *prog[MAXTH]; static int nprog; static char tn[MAXTH+4][8], dn[MAXTH+4][8];
 static void fn_a(void *p){ (void)p; } static void fn_b(void *p){ (void)p; }
 static void record_call(void (*f)(void *), void *p){ long i=(long)p>>4; vs_call("dcall",(unsigned long)i); vs_note("fn %c arg %lx",f==fn_a?'a':f==fn_b?'b':'?',(unsigned long)p);
 	if(i>=0&&i<NO){ ran[i]++; CMM_STORE_SHARED(done_[owner[i]],done_[owner[i]]+1); } vs_ret("dcall",(unsigned long)i); }
 static void body(int t){
 	sprintf(tn[t],"rd%d",t); vs_region(&URCU_TLS(rcu_reader).ctr,sizeof(unsigned long),tn[t]);
+	sprintf(dn[t],"dq%d",t); vs_region(&URCU_TLS(defer_queue),sizeof(struct defer_queue),dn[t]);
 	vs_quiet_begin(); rcu_register_thread(); vs_quiet_end();
 	int depth=0;
 	for(char *p=prog[t]; *p; p++){
@@ -48,6 +49,7 @@ int main(int argc,char**argv){
 	vs_region(&gp_waiters,sizeof gp_waiters,"waiters"); vs_region(&rcu_defer_mutex,sizeof rcu_defer_mutex,"dmutex"); vs_region(&defer_thread_mutex,sizeof defer_thread_mutex,"dtmutex");
 	vs_region(&defer_thread_futex,4,"dfutex"); vs_region(&defer_thread_stop,4,"dstop"); vs_region(done_,sizeof done_,"done");
 	printf("- size %d\n",(int)DEFER_QUEUE_SIZE);
+	printf("- dqoff %d %d\n",(int)offsetof(struct defer_queue,head),(int)offsetof(struct defer_queue,tail));
 	for(int i=0;i<nprog;i++) vs_spawn(body);
 	vs_run(argv[2]);
 	for(int i=0;i<NO;i++) if(ran[i]) printf("- ran %d %lu\n", i, ran[i]);
